@@ -119,6 +119,9 @@ static int get_register_arc(char *token)
       n = (n * 10) + (*s - '0');
       count++;
 
+      // Register fields are 6 bits (r0 to r63).
+      if (n > 63) { return -1; }
+
       // Disallow leading 0's on registers.
       if (n == 0 && count >1) { return -1; }
 
